@@ -93,7 +93,7 @@ theorem SubstCert.bw_cons (S : Nat → Prop) (hH : ConsOff h (fun d => S d ∨ d
     by_cases hd : (h.net.line l').driver = c
     · -- a line at an output pin of the instance
       have hout : instOut h c (h.net.line l').dpin = some l' := by
-        have := (ct.hwf.back l' hlt).2.2.1
+        have := (ct.hwf.back l' hlt).2.2
         rw [hd] at this; exact this
       obtain ⟨il, _, _, hk, _, _, _⟩ := ct.outWire _ l' hout
       rw [ct.eq_outline z neg prim _ _ anm vm ag hA hP hM.1 _ il l' hk hout]
